@@ -1,0 +1,9 @@
+//go:build verif
+
+// Contracts for package sseutil (C03, C09, C10).  Comment-only file.
+
+package sseutil
+
+//@ func Writer.WriteEvent
+//@   modifies *, status(w)
+//@   ensures result == nil ==> status(w) != 0
